@@ -176,6 +176,16 @@ func (sig EcdsaSignature) Marshal() []byte {
 	return ret
 }
 
+// PackSize packs an ECDSA signature as two fixed-width numbers of nbytes each, per
+// IEEE 1363. nbytes is the size of the curve order, e.g. 32 for P-256 and 66
+// for P-521, regardless of how small r and s happen to be.
+func (sig EcdsaSignature) PackSize(nbytes int) []byte {
+	ret := make([]byte, 2*nbytes)
+	sig.R.FillBytes(ret[0:nbytes])
+	sig.S.FillBytes(ret[nbytes:])
+	return ret
+}
+
 // Pack an ECDSA signature by concatenating the two numbers per IEEE 1363
 func (sig EcdsaSignature) Pack() []byte {
 	// allocate space to hold both numbers
